@@ -102,9 +102,10 @@ type lockStruct struct {
 	Name       string
 	Named      *types.Named
 	Lock       *types.Var
-	Guarded    map[*types.Var]bool // written in any way outside construction
-	Reassigned map[*types.Var]bool // the field itself is assigned outside construction
-	PtrMutated map[*types.Var]bool // pointer field whose pointee is mutated in place (or driven through a state machine) outside construction
+	Guarded    map[*types.Var]bool   // written in any way outside construction
+	Reassigned map[*types.Var]bool   // the field itself is assigned outside construction
+	ContentMut map[*types.Var]string // map/slice field whose elements are changed in place outside construction (example site)
+	PtrMutated map[*types.Var]bool   // pointer field whose pointee is mutated in place (or driven through a state machine) outside construction
 	Fields     []*types.Var
 }
 
@@ -266,7 +267,7 @@ func (la *lockAnalysis) findStructs() {
 			if lock == nil {
 				continue
 			}
-			ls := &lockStruct{Name: p.pkgName[pk.PkgPath] + "." + nm, Named: named, Lock: lock, Guarded: map[*types.Var]bool{}, Reassigned: map[*types.Var]bool{}, PtrMutated: map[*types.Var]bool{}}
+			ls := &lockStruct{Name: p.pkgName[pk.PkgPath] + "." + nm, Named: named, Lock: lock, Guarded: map[*types.Var]bool{}, Reassigned: map[*types.Var]bool{}, PtrMutated: map[*types.Var]bool{}, ContentMut: map[*types.Var]string{}}
 			for i := 0; i < st.NumFields(); i++ {
 				f := st.Field(i)
 				if f != lock {
@@ -967,7 +968,18 @@ func (la *lockAnalysis) inferGuarded() {
 			if la.writeKind(sel) == "assign" {
 				ls.Reassigned[f] = true
 			} else if _, isPtr := p.TypeOf(sel).Underlying().(*types.Pointer); isPtr && lockUnsyncPointees[p.TypeName(p.TypeOf(sel))] {
-				ls.PtrMutated[f] = true
+				// Prune() is only applied to the object that was stored into the field in the same
+				// critical section (replace-then-prune idiom): readers holding the previous object are unaffected
+				if ps, isSel := p.Parent(sel).(*ast.SelectorExpr); !isSel || ps.Sel.Name != "Prune" {
+					ls.PtrMutated[f] = true
+				}
+			} else {
+				switch p.TypeOf(sel).Underlying().(type) {
+				case *types.Map, *types.Slice:
+					if _, has := ls.ContentMut[f]; !has {
+						ls.ContentMut[f] = p.Pos(sel) + " in " + fn.Name
+					}
+				}
 			}
 			return true
 		})
